@@ -615,13 +615,52 @@ func genMap(c *hx.Ctx) {
 		b = 7 + r.Intn(6)
 	}
 	t := r.Intn(4)
-	if r.Chance(1, 10) {
+	switch r.Intn(8) {
+	case 0:
 		t = 4 + r.Intn(4)
+	case 1:
+		t = 8 + r.Intn(9) // 8..16 tag bits: the tag alone can push the header varint to 2 or 3 bytes
+		if r.Chance(2, 3) {
+			t = 8 + r.Intn(5)
+		}
+	}
+	eb := b // effective bucket bits (the builder uses at least t)
+	if eb < t {
+		eb = t
+	}
+	tagOf := func() int {
+		max := 1<<uint(t) - 1
+		var v int
+		switch r.Intn(8) {
+		case 0:
+			v = 0
+		case 1:
+			v = 1
+		case 2:
+			v = 127
+		case 3:
+			v = 128
+		case 4:
+			v = 255
+		case 5:
+			v = max
+		case 6:
+			v = 16383 + r.Intn(2)
+		default:
+			v = r.Intn(max + 1)
+		}
+		if v > max {
+			v = max
+		}
+		return v
 	}
 	// a pool of ids: extremes, ids sharing a bucket, ids differing only in high bits
 	var pool []uint64
 	for i := 2 + r.Intn(5); i > 0; i-- {
 		id := word(r)
+		if r.Chance(1, 3) {
+			id = uint64(r.Intn(1 << uint(eb))) // id < 2^bucketBits: contributes no bits to the header word
+		}
 		pool = append(pool, id)
 		switch r.Intn(4) {
 		case 0:
@@ -641,7 +680,10 @@ func genMap(c *hx.Ctx) {
 		if r.Chance(1, 15) {
 			l = 100 + r.Intn(100)
 		}
-		es[i] = entry{id: pool[r.Intn(len(pool))], tag: r.Intn(1 << uint(t)), data: bytesN(r, l)}
+		es[i] = entry{id: pool[r.Intn(len(pool))], tag: tagOf(), data: bytesN(r, l)}
+		if es[i].id < 1<<uint(eb) && es[i].tag >= 128 {
+			c.Note("map:small-id,tag>=128")
+		}
 		if es[i].id >= 1<<63 {
 			topbit = true
 		}
@@ -658,7 +700,7 @@ func genMap(c *hx.Ctx) {
 	c.Op(fmt.Sprintf("map %d %d %s", b, t, hx.List(xs)), ans)
 	c.Note("op:map")
 	c.Note(fmt.Sprintf("map:b=%d", min(b, 7)))
-	c.Note(fmt.Sprintf("map:t=%d", min(t, 4)))
+	c.Note(fmt.Sprintf("map:t=%d", min(t, 8)))
 	if built == nil {
 		c.Note("map:panic")
 		return
@@ -694,7 +736,7 @@ func genMap(c *hx.Ctx) {
 			c.Note("op:first")
 		case 2:
 			id := q()
-			tag := r.Intn(1 << uint(t))
+			tag := tagOf()
 			c.Op(fmt.Sprintf("firsttag %s %d", u(id), tag), opFirstTag(built.m, id, tag))
 			c.Note("op:firsttag")
 		}
@@ -713,7 +755,7 @@ func genMap(c *hx.Ctx) {
 func main() {
 	hx.Main(hx.Family{
 		Name:     "c09",
-		Rule:     "each case is one of: 3 integer ops (fixed width at the value's own Uint64Length on byte-boundary values and [2^32,2^33) samples, delta/zigzag coded sequences incl. wrap-around deltas and decode of mutated bytes, fixed-width ints, Uint64Length), one ByteArrays build (or a layout-only build whose reserved total sits next to 2^8k or in 4..8 GiB, offset table and length read back; random reservations split over several Reserve calls, writes in random order, 0-6 items) + every item read back, one StringTable build, or one Uint64Map build (requested bucket bits 0..12, tag bits 0..7, ids from a small pool with shared buckets, top bits and duplicates) followed by FillTagged/FindFirst/FindFirstWithTag queries on present and absent ids, a full iteration and EachItem; non-trivial = delta with |d| >= 2^62, fixed width of a value >= 2^32, an exactly-filled ByteArrays with >= 3 writes, a string table with >= 5 adds, a map with duplicate ids and a top-bit id; distinct = by hash of the op text",
+		Rule:     "each case is one of: 3 integer ops (fixed width at the value's own Uint64Length on byte-boundary values and [2^32,2^33) samples, delta/zigzag coded sequences incl. wrap-around deltas and decode of mutated bytes, fixed-width ints, Uint64Length), one ByteArrays build (or a layout-only build whose reserved total sits next to 2^8k or in 4..8 GiB, offset table and length read back; random reservations split over several Reserve calls, writes in random order, 0-6 items) + every item read back, one StringTable build, or one Uint64Map build (requested bucket bits 0..12, tag bits 0..16 (the builder uses at least as many bucket bits), tags from edge values 0/1/127/128/255/2^t-1/16383, ids from a small pool with ids below 2^bucketBits, shared buckets, top bits and duplicates) followed by FillTagged/FindFirst/FindFirstWithTag queries on present and absent ids, a full iteration and EachItem; non-trivial = delta with |d| >= 2^62, fixed width of a value >= 2^32, an exactly-filled ByteArrays with >= 3 writes, a string table with >= 5 adds, a map with duplicate ids and a top-bit id; distinct = by hash of the op text",
 		Quick:    2500,
 		Thorough: 120000,
 		Corpus: func(c *hx.Ctx) {
@@ -748,6 +790,16 @@ func main() {
 			for _, total := range []uint64{1<<8 - 1, 1 << 8, 1<<8 + 1, 1<<16 - 1, 1 << 16, 1<<16 + 1, 1<<24 - 1, 1 << 24, 1<<24 + 1, 1<<32 - 1, 1 << 32, 1<<32 + 1, 5 << 30} {
 				ls := []uint64{5, total - 29, 20, 0, 4}
 				c.Op("bal "+words(ls), opBAL(ls))
+			}
+			// header varint made longer by the tag alone: 8 tag bits, id below 2^bucketBits, tag >= 128 (Reserve and
+			// WriteItem must size the header identically)
+			es2 := []entry{{id: 3, tag: 200, data: []byte{1}}, {id: 3, tag: 5, data: []byte{2, 3}}, {id: 1<<63 + 3, tag: 255, data: nil}, {id: 7, tag: 128, data: []byte{9}}}
+			ans2, built2 := opMap(8, 8, es2, []int{3, 2, 1, 0})
+			c.Op(fmt.Sprintf("map 8 8 [3:200:01 3:5:0203 %s:255:- 7:128:09]", u(1<<63+3)), ans2)
+			if built2 != nil {
+				c.Op("fill 3", opFill(built2.m, 3))
+				c.Op("firsttag 7 128", opFirstTag(built2.m, 7, 128))
+				c.Op("iter", opIter(built2.m))
 			}
 			c.Op("fix 18446744073709551615 8", opFix(1<<64-1, 8))
 			c.Op("fix 256 1", opFix(256, 1))
